@@ -329,6 +329,12 @@ def rule_r1(chk, m, f, top, states, table):
             if any(d[0] == 'pos < size' and d[1] is False
                    for d in p['decisions']):
                 continue  # end of input after this character (rule R3)
+            if cname == 'RP' and any(d[0].strip() == 'exprs'
+                                     and d[1] is False
+                                     for d in p['decisions']):
+                # unmatched ")": outside the property's quantifier
+                # (balanced parentheses); not crashing here is C04's rule
+                continue
             if p['end'] is top or p['end'] in ('exit', 'return'):
                 ev = ' ; '.join(p['events'])
                 if 'cur_expr = []' in ev or 'exprs.append(' in ev:
